@@ -254,13 +254,13 @@ def run(rep):
     readall = vlib.compile_harness("readAll", "asan")
     mk = vlib.compile_harness("mkArchive", "asan")
     arcs = readcore.writer_archives(mk)
-    arcs += readcore.reference_archives(30000 if quick else 2000000, limit=40 if quick else None)
+    arcs += readcore.reference_archives(30000 if quick else 600000, limit=40 if quick else None)
     rcases, meta = [], []
-    nmut = 4 if quick else 60
+    nmut = 4 if quick else 30
     for name, arc in arcs:
         variants = [(arc, "intact")] + [mutate(r, arc) for _ in range(nmut)]
         for data, what in variants:
-            sz = r.choice([1, 3, 7, 512, 10240]) if len(data) < 5000 else r.choice([7, 512, 10240, 65536])
+            sz = r.choice([1, 3, 7, 512, 10240]) if len(data) < 5000 else r.choice([7, 512, 10240, 65536]) if len(data) < 150000 else r.choice([512, 10240, 65536])
             hs, hk = r.choice([(0, 0), (1, 1), (1, 0)])
             cons = r.choice([(0, 4096, 0), (0, 1, 0) if len(data) < 3000 else (0, 333, 0), (1, 0, 0), (2, 10, 0), (3, 0, 0), (4, 0, 0)])
             rcases.append(readcore.read_case(data, source=(0,), rplan=[sz] * (len(data) // sz + 2), has_skip=hs, has_seek=hk, consume=cons))
